@@ -25,9 +25,15 @@ pub fn search(ctx: &Context, query: &str, num_results: usize) -> SearchReply {
     SearchReply {
         results: search_internal(ctx, query, num_results)
             .into_iter()
-            .map(|name| {
+            .filter_map(|name| {
+                // The results are names of the registry; `lookup` would
+                // read a unit named `ans` or `_` as the previous answer.
                 let parts = ctx
-                    .lookup(name)
+                    .registry
+                    .units
+                    .get(name)
+                    .cloned()
+                    .or_else(|| ctx.lookup(name))
                     .map(|x| x.to_parts(ctx))
                     .or_else(|| {
                         if ctx.registry.substances.get(name).is_some() {
@@ -38,15 +44,14 @@ pub fn search(ctx: &Context, query: &str, num_results: usize) -> SearchReply {
                         } else {
                             None
                         }
-                    })
-                    .expect("Search returned non-existent result");
+                    })?;
                 let raw = Dimensionality::base_unit(BaseUnit::new(name));
-                NumberParts {
+                Some(NumberParts {
                     unit: Some(name.to_owned()),
                     raw_unit: Some(raw),
                     quantity: parts.quantity,
                     ..Default::default()
-                }
+                })
             })
             .collect(),
     }
